@@ -14,8 +14,25 @@ import (
 	"go.brendoncarroll.net/p2p/f/x509"
 )
 
+var (
+	cacheMu  sync.Mutex
+	keyCache = map[int]x509.PrivateKey{}
+	pubCache = map[int]x509.PublicKey{}
+)
+
 // Key returns the i-th deterministic Ed25519 signing key.
 func Key(i int) x509.PrivateKey {
+	cacheMu.Lock()
+	defer cacheMu.Unlock()
+	if k, ok := keyCache[i]; ok {
+		return k
+	}
+	k := makeKey(i)
+	keyCache[i] = k
+	return k
+}
+
+func makeKey(i int) x509.PrivateKey {
 	seed := make([]byte, 32)
 	binary.BigEndian.PutUint64(seed[24:], uint64(i)+1)
 	pk := ed25519.NewKeyFromSeed(seed)
@@ -24,6 +41,20 @@ func Key(i int) x509.PrivateKey {
 }
 
 func Pub(i int) x509.PublicKey {
+	cacheMu.Lock()
+	if p, ok := pubCache[i]; ok {
+		cacheMu.Unlock()
+		return p
+	}
+	cacheMu.Unlock()
+	p := makePub(i)
+	cacheMu.Lock()
+	pubCache[i] = p
+	cacheMu.Unlock()
+	return p
+}
+
+func makePub(i int) x509.PublicKey {
 	priv := Key(i)
 	pub, err := x509.DefaultRegistry().PublicFromPrivate(&priv)
 	if err != nil {
